@@ -1737,6 +1737,55 @@ func ruleUntilDefault(w *World, r *Report, rule string, f *ssa.Function, readers
 			bads = append(bads, "until is neither the command's Until nor the clock reading ("+a.String()+")")
 		}
 	}
+	// inside a loop over files or items the choice is made afresh in every iteration: evaluated again from the loop
+	// header with the variable holding "whatever the previous iteration left", that content must not reach the use
+	var header *ssa.BasicBlock
+	for b := useBlock; b != nil; b = b.Idom() {
+		if isLoopHeader(b) {
+			for _, p := range b.Preds {
+				if b.Dominates(p) && (useBlock == p || blockReachesAvoiding(useBlock, p, b)) {
+					header = b
+				}
+			}
+			if header != nil {
+				break
+			}
+		}
+	}
+	if header != nil {
+		var latch *ssa.BasicBlock
+		for _, p := range header.Preds {
+			if header.Dominates(p) {
+				latch = p
+			}
+		}
+		e2 := &ddEngine{w: w, env: map[ssa.Value]aval{}, maxLeafs: 64}
+		e2.stopInstr = func(in ssa.Instruction) bool { return in == useInstr }
+		if uAlloc != nil {
+			e2.initMem = map[*ssa.Alloc]aval{uAlloc: {k: kSym, sym: uAlloc}}
+		}
+		e2.runFrom(header, latch)
+		if e2.err == nil {
+			for _, l := range e2.leaves {
+				if l.stop == nil || l.st == nil {
+					continue
+				}
+				var a aval
+				if uAlloc != nil {
+					a = l.st.mem[uAlloc]
+				} else {
+					a = e2.value(l.st, uPhi)
+				}
+				carried := a.k == kSym && a.sym != nil && (a.sym == ssa.Value(uAlloc) && uAlloc != nil)
+				if _, isPhi := a.sym.(*ssa.Phi); a.k == kSym && isPhi {
+					carried = true
+				}
+				if carried {
+					bads = append(bads, "in a later iteration until still holds what the previous file or item chose (the default to the clock is taken once, not per item)")
+				}
+			}
+		}
+	}
 	sort.Strings(bads)
 	first := ""
 	if len(bads) > 0 {
@@ -2527,6 +2576,7 @@ func ruleWriteOrderFinestFirst(w *World, r *Report, rule string) {
 	// the list written is the one with the archive's own index
 	ex := newExprCtx(w)
 	okList := strings.HasSuffix(ex.expr(cs[0].Common().Args[1]), "p1["+ex.expr(id)+"]")
+	ruleLoopGoesOn(w, r, rule, "cmd.updateFileDataWithPointsList:every-archive", cs[0], "an archive with nothing to write is skipped, not the coarser archives after it")
 	r.Check(okOrder && okList, rule, key, w.instrPos(cs[0]), "archives are written in ascending order, each with its own list", "updateFileDataWithPointsList does not write archive 0 first and upward with pointsList[archiveID]: a later write to a finer archive recomputes the coarser ones by the file's aggregation method and replaces what was written there (for any method other than sum the coarser slots no longer hold their own list)")
 }
 
@@ -2575,4 +2625,355 @@ func ruleHeaderFirstRead(w *World, r *Report, rule string) {
 		bad = "reads into " + newExprCtx(w).expr(buf) + " (length not recognised)"
 	}
 	r.Check(bad == "", rule, key, w.instrPos(first), fmt.Sprintf("the first read stays within the smallest valid file (%d bytes)", smallest), "readHeader "+bad+": layouts that Create accepts (one archive of one or two points) can no longer be reopened")
+}
+
+// ruleKnownValueFilter (decision diagram, one slot): filterValidValues keeps a raw slot exactly when its stored time
+// equals the expected interval — nothing about the value takes part (a NaN that was written is a known value).
+func ruleKnownValueFilter(w *World, r *Report, rule string) {
+	const key = "whispertool.filterValidValues:predicate"
+	f := fn(w.Lib, "filterValidValues")
+	if f == nil || len(f.Params) != 3 {
+		r.Undecided(rule, key, "-", "filterValidValues not found")
+		return
+	}
+	var appendBlock *ssa.BasicBlock
+	eachInstr(f, func(in ssa.Instruction) {
+		if c, ok := in.(*ssa.Call); ok && isBuiltin(c, "append") {
+			appendBlock = c.Block()
+		}
+	})
+	e := &ddEngine{w: w, env: lenEnv(f, map[int]int64{0: 1}), maxLeafs: 16, concreteAtoms: true}
+	e.run(f)
+	var bads []string
+	if e.err != nil {
+		bads = append(bads, "cannot evaluate: "+e.err.Error())
+	}
+	if appendBlock == nil {
+		bads = append(bads, "no value is ever kept")
+	}
+	kept, dropped := false, false
+	for _, l := range e.leaves {
+		if l.ret == nil {
+			continue
+		}
+		included := false
+		for _, b := range l.path {
+			if b == appendBlock {
+				included = true
+			}
+		}
+		timeEq, known := false, false
+		for k, chosen := range l.atoms {
+			v, neg := stripNot(l.atomVal[k])
+			bo, ok := v.(*ssa.BinOp)
+			ex := newExprCtx(w)
+			isTimeCmp := false
+			if ok && (bo.Op == token.EQL || bo.Op == token.NEQ) {
+				xs, ys := ex.expr(bo.X), ex.expr(bo.Y)
+				if (strings.HasSuffix(xs, ".Time") && elemOfParam(bo.X, f.Params[0])) || (strings.HasSuffix(ys, ".Time") && elemOfParam(bo.Y, f.Params[0])) {
+					isTimeCmp = true
+				}
+			}
+			if !isTimeCmp {
+				bads = append(bads, "a condition other than `stored time == expected interval` decides whether a slot is known ("+k+")")
+				continue
+			}
+			timeEq, known = (chosen != neg) == (bo.Op == token.EQL), true
+		}
+		if !known {
+			bads = append(bads, "a slot is kept or dropped without comparing its stored time with the expected interval")
+			continue
+		}
+		if timeEq != included {
+			bads = append(bads, fmt.Sprintf("a slot whose stored time %s the expected interval is %s", map[bool]string{true: "equals", false: "differs from"}[timeEq], map[bool]string{true: "kept", false: "dropped"}[included]))
+		}
+		kept, dropped = kept || included, dropped || !included
+	}
+	if len(bads) == 0 && !(kept && dropped) {
+		bads = append(bads, "the filter does not distinguish slots")
+	}
+	sort.Strings(bads)
+	first := ""
+	if len(bads) > 0 {
+		first = bads[0]
+	}
+	r.Check(len(bads) == 0, rule, key, w.pos(f.Pos()), "known iff stored time == expected interval", "filterValidValues: "+first+" — the known fraction and the aggregate are no longer taken over exactly the values currently stored for the interval")
+}
+
+// ruleCreatePassesLayout: Create hands the caller's archive list to NewHeader as it is (no sorting, no rewriting):
+// Create accepts exactly what NewHeader accepts, and the caller's slice is not reordered.
+func ruleCreatePassesLayout(w *World, r *Report, rule string) {
+	const key = "whispertool.Create:layout-unchanged"
+	f, nh := fn(w.Lib, "Create"), fn(w.Lib, "NewHeader")
+	if f == nil || nh == nil {
+		r.Undecided(rule, key, "-", "Create or NewHeader not found")
+		return
+	}
+	bad := ""
+	cs := callsTo(f, nh)
+	if len(cs) != 1 {
+		bad = fmt.Sprintf("calls NewHeader %d times", len(cs))
+	} else {
+		ex := newExprCtx(w)
+		as := cs[0].Common().Args
+		if got := ex.expr(as[0]) + ", " + ex.expr(as[1]) + ", " + ex.expr(as[2]); got != "p2, p3, p1" {
+			bad = "calls NewHeader(" + got + ") instead of (aggregationMethod, xFilesFactor, archiveInfoList) as given"
+		}
+		// nothing touches the list before
+		for _, c := range callsIn(f) {
+			cv, ok := c.(*ssa.Call)
+			if !ok || cv == cs[0] || !dominatesInstr(cv, cs[0]) {
+				continue
+			}
+			for _, a := range cv.Common().Args {
+				for _, l := range leavesOf(a) {
+					if l == ssa.Value(f.Params[1]) {
+						name := "a call"
+						if sc := cv.Common().StaticCallee(); sc != nil {
+							name = funcName(sc)
+						}
+						bad = "hands the archive list to " + name + " before validating it (sorted or rewritten lists are accepted by Create and refused by every other entry point)"
+					}
+				}
+			}
+		}
+		eachInstr(f, func(in ssa.Instruction) {
+			if st, ok := in.(*ssa.Store); ok {
+				if ia, ok := st.Addr.(*ssa.IndexAddr); ok && stripChangeType(ia.X) == ssa.Value(f.Params[1]) {
+					bad = "writes into the caller's archive list"
+				}
+			}
+		})
+	}
+	r.Check(bad == "", rule, key, w.pos(f.Pos()), "NewHeader gets the method, xFilesFactor and archive list exactly as given", "Create "+bad)
+}
+
+// ruleSingleStoreOf: in f exactly one store goes to *param0, and its value renders as want.
+func ruleSingleStoreOf(w *World, r *Report, rule, key string, f *ssa.Function, want *regexp.Regexp, what, consequence string) {
+	if f == nil {
+		r.Undecided(rule, key, "-", "function not found")
+		return
+	}
+	n, bad := 0, ""
+	eachInstr(f, func(in ssa.Instruction) {
+		st, ok := in.(*ssa.Store)
+		if !ok || st.Addr != ssa.Value(f.Params[0]) {
+			return
+		}
+		n++
+		if s := newExprCtx(w).expr(st.Val); !want.MatchString(s) {
+			bad = "stores " + shortExpr(s)
+		}
+	})
+	if bad == "" && n != 1 {
+		bad = fmt.Sprintf("stores to the decoded object %d times (a second, conditional store replaces what was decoded)", n)
+	}
+	r.Check(bad == "", rule, key, w.pos(f.Pos()), what, funcName(f)+" "+bad+": "+consequence)
+}
+
+// rulePrintFileDataHeader (decision diagram): printFileData prints the header exactly when showHeader is set —
+// nothing about the points takes part — and the point list on every non-failing path.
+func rulePrintFileDataHeader(w *World, r *Report, rule string) {
+	const key = "cmd.printFileData:header-iff-flag"
+	f := fn(w.Cmd, "printFileData")
+	if f == nil || len(f.Params) != 4 {
+		r.Undecided(rule, key, "-", "printFileData not found")
+		return
+	}
+	hs := fn(w.Lib, "Header.String")
+	pr := fn(w.Cmd, "PointsList.Print")
+	e := &ddEngine{w: w, env: map[ssa.Value]aval{}, maxLeafs: 32}
+	e.onCall = func(s *ddState, c *ssa.Call) {
+		switch c.Common().StaticCallee() {
+		case hs:
+			s.log = append(s.log, "header")
+		case pr:
+			s.log = append(s.log, "points")
+		}
+	}
+	var bads []string
+	for _, flag := range []bool{true, false} {
+		e.leaves = nil
+		e.env = map[ssa.Value]aval{f.Params[3]: {k: kBool, b: flag}}
+		e.run(f)
+		if e.err != nil {
+			bads = append(bads, "cannot evaluate: "+e.err.Error())
+			continue
+		}
+		for _, l := range e.leaves {
+			if l.ret == nil || isFailureReturn(l.ret) || l.st == nil {
+				continue
+			}
+			has := map[string]bool{}
+			for _, x := range l.st.log {
+				has[x] = true
+			}
+			if has["header"] != flag {
+				bads = append(bads, fmt.Sprintf("with showHeader=%v the header is %s on some path (the decision depends on something else)", flag, map[bool]string{true: "printed", false: "not printed"}[has["header"]]))
+			}
+			if !has["points"] {
+				bads = append(bads, "a successful path does not print the point list")
+			}
+		}
+	}
+	sort.Strings(bads)
+	first := ""
+	if len(bads) > 0 {
+		first = bads[0]
+	}
+	r.Check(len(bads) == 0, rule, key, w.pos(f.Pos()), "header iff showHeader; points always", "printFileData: "+first+" — view and view-raw no longer show the header followed by the slots for every selection")
+}
+
+// ruleLastIndexGuarded: x[len(x)-k] in the library is reached only where x is known to hold at least k elements: a
+// dominating emptiness test of x, or a validate() of x whose failure leaves first (validate rejects the empty list).
+// A decoded header with zero archives reaches every function that takes "the last archive".
+func ruleLastIndexGuarded(w *World, r *Report, rule string) {
+	validate := fn(w.Lib, "ArchiveInfoList.validate")
+	n := 0
+	for _, f := range w.modFuncs {
+		if pkgOf(f) != w.Lib {
+			continue
+		}
+		eachInstr(f, func(in ssa.Instruction) {
+			var idx, base ssa.Value
+			switch x := in.(type) {
+			case *ssa.IndexAddr:
+				idx, base = x.Index, x.X
+			case *ssa.Index:
+				idx, base = x.Index, x.X
+			default:
+				return
+			}
+			bo, ok := stripConvert(idx).(*ssa.BinOp)
+			if !ok || bo.Op != token.SUB {
+				return
+			}
+			lc, ok := bo.X.(*ssa.Call)
+			if !ok || !isBuiltin(lc, "len") {
+				return
+			}
+			if _, isK := constInt(bo.Y); !isK {
+				return
+			}
+			ex := newExprCtx(w)
+			bs := ex.expr(base)
+			if ex.expr(lc.Common().Args[0]) != bs {
+				return
+			}
+			// archive lists only: their length comes from a decoded count (aggregate's value slice has its own
+			// non-empty contract, C02.R1)
+			if !strings.Contains(base.Type().String(), "ArchiveInfo") {
+				return
+			}
+			n++
+			key := funcName(f) + ":last-index:" + bs
+			guarded := false
+			for _, b := range f.Blocks {
+				if c, _, nonEmpty, ok := lenEmptyEdge(b); ok && ex.expr(c.Common().Args[0]) == bs && edgeDominates(b, nonEmpty, in.Block()) {
+					guarded = true
+				}
+			}
+			// a loop over the same slice (the body runs only for a non-empty one), or an earlier successful validate
+			if inLoopWith(in.Block()) {
+				guarded = true
+			}
+			if validate != nil {
+				for _, c := range callsTo(f, validate) {
+					if ex.expr(c.Common().Args[0]) == bs && dominatesInstr(c, in) && checkErrorHandled(w, c) == "" {
+						guarded = true
+					}
+				}
+			}
+			// the receiver's own invariant: methods of Header on a validated header, and callers that validated
+			if !guarded && (strings.HasPrefix(funcName(f), "whispertool.Header.") || strings.HasPrefix(funcName(f), "whispertool.Whisper.") || f == fn(w.Lib, "NewHeader")) && f != fn(w.Lib, "Header.TakeFrom") {
+				r.OK(rule, key, w.instrPos(in), "the receiver holds a validated (non-empty) list: only NewHeader and TakeFrom build headers, and both validate first")
+				return
+			}
+			r.Check(guarded, rule, key, w.instrPos(in), "the last element is taken only from a list known to be non-empty", funcName(f)+" takes the last element of "+bs+" where the list may be empty: a decoded header with zero archives panics here instead of being rejected")
+		})
+	}
+	if n == 0 {
+		r.OK(rule, "last-index:none", "-", "no x[len(x)-k] in the library")
+	}
+}
+
+// ruleProductWidth: the number of missing finer slots times the random draw is multiplied in int (64 bits): with a
+// large -max and a large step ratio the product does not fit 32 bits.
+func ruleProductWidth(w *World, r *Report, rule string) {
+	const key = "cmd.randomValWithHighSum:product-width"
+	f := fn(w.Cmd, "randomValWithHighSum")
+	if f == nil {
+		return
+	}
+	bad := ""
+	found := false
+	eachInstr(f, func(in ssa.Instruction) {
+		bo, ok := in.(*ssa.BinOp)
+		if !ok || bo.Op != token.MUL {
+			return
+		}
+		hasIntn := false
+		for _, o := range []ssa.Value{bo.X, bo.Y} {
+			if c, ok := stripConvert(o).(*ssa.Call); ok && isMethodCall(c, "math/rand", "Rand", "Intn") {
+				hasIntn = true
+			}
+		}
+		if !hasIntn {
+			return
+		}
+		found = true
+		if b, ok := bo.Type().Underlying().(*types.Basic); !ok || !(b.Kind() == types.Int || b.Kind() == types.Int64 || b.Kind() == types.Float64) {
+			bad = "multiplies the missing-slot count with the random draw in " + bo.Type().String() + " (32 bits)"
+		}
+	})
+	if !found {
+		return // the formula rule (C20.R5 sum) reports a missing product
+	}
+	r.Check(bad == "", rule, key, w.pos(f.Pos()), "the remainder's product is computed in int", "randomValWithHighSum "+bad+": with a large -max and step ratio it wraps and the slot gets a negative value")
+}
+
+// ruleLeadingIntRepresentatives (abstract evaluation over class representatives): leadingInt, evaluated on one
+// representative per class of numeral — none, a lone non-digit, 0, 00, a digit, two digits, each followed by a unit
+// letter — accepts exactly the numerals with at least one digit and no redundant leading zero, with their value.
+func ruleLeadingIntRepresentatives(w *World, r *Report, rule string) {
+	const key = "whispertool.leadingInt:representatives"
+	f := fn(w.Lib, "leadingInt")
+	if f == nil || len(f.Params) != 1 {
+		r.Undecided(rule, key, "-", "leadingInt not found")
+		return
+	}
+	type rep struct {
+		in   string
+		ok   bool
+		want int64
+	}
+	var bads []string
+	for _, c := range []rep{{"", false, 0}, {"s", false, 0}, {"0s", true, 0}, {"00s", false, 0}, {"7s", true, 7}, {"12s", true, 12}, {"120m", true, 120}} {
+		e := &ddEngine{w: w, env: map[ssa.Value]aval{f.Params[0]: {k: kStr, s: c.in}}, maxLeafs: 8}
+		e.run(f)
+		if e.err != nil || len(e.leaves) != 1 || e.leaves[0].ret == nil || len(e.leaves[0].results) != 3 {
+			msg := "more than one path"
+			if e.err != nil {
+				msg = e.err.Error()
+			}
+			bads = append(bads, fmt.Sprintf("cannot evaluate on %q: %s", c.in, msg))
+			continue
+		}
+		res := e.leaves[0].results
+		accepted := res[2].k == kNil
+		switch {
+		case accepted != c.ok && c.ok:
+			bads = append(bads, fmt.Sprintf("rejects %q", c.in))
+		case accepted != c.ok:
+			bads = append(bads, fmt.Sprintf("accepts %q (a numeral without digits or with a redundant leading zero) as %s", c.in, res[0]))
+		case accepted && !(res[0].k == kInt && res[0].i == c.want):
+			bads = append(bads, fmt.Sprintf("reads %q as %s instead of %d", c.in, res[0], c.want))
+		}
+	}
+	sort.Strings(bads)
+	first := ""
+	if len(bads) > 0 {
+		first = bads[0]
+	}
+	r.Check(len(bads) == 0, rule, key, w.pos(f.Pos()), `"" and "s" rejected; 0s, 7s, 12s, 120m read as 0, 7, 12, 120; 00s rejected`, "leadingInt "+first+": a duration string is accepted with a value that is not its arithmetic meaning, or a printed duration no longer parses")
 }
